@@ -84,6 +84,7 @@ pub struct WorldState {
     pub pendings: u64,
     pub deferred: u64,
     pub empty_chunks: u64,
+    pub empty_run_chunks: u64,
     pub chunks: u64,
     pub polls_after_done: u64,
     pub contract_breach: Option<String>,
@@ -111,6 +112,7 @@ impl World {
                 pendings: 0,
                 deferred: 0,
                 empty_chunks: 0,
+                empty_run_chunks: 0,
                 chunks: 0,
                 polls_after_done: 0,
                 contract_breach: None,
@@ -198,6 +200,29 @@ impl http_serve::Entity for SimEntity {
         }
         // Half of the streams are of the kind whose own size_hint gives exhaustion away.
         let hint_policy = st.tape.as_mut().map(|t| t.draw(2)).unwrap_or(0);
+        // A run of consecutive empty chunks (legal for any entity: it adds no bytes) at one place
+        // of the stream: its start, its end (after the last byte, before `None`), the fault
+        // position, or anywhere. The length comes from the source dictionary half of the time, so
+        // that a limit on "chunks without progress" added by a change is met exactly, one below
+        // and one above. The run may be followed by one `Pending`.
+        let mut run = (0u64, 0u32, false);
+        let empty_knob = st.knobs.empty_chunks;
+        if let Some(t) = st.tape.as_mut() {
+            if empty_knob && t.chance(1, 5) {
+                let n = if t.chance(1, 2) {
+                    crate::dict::pick_in(t.draw(1 << 16), 2, 400).unwrap_or(5) as u32
+                } else {
+                    2 + t.draw(12)
+                };
+                let at = match t.draw(4) {
+                    0 => 0,
+                    1 => len,
+                    2 => fault.map(|(_, at)| at).unwrap_or(len).min(len),
+                    _ => t.below(len.saturating_add(1).max(1)),
+                };
+                run = (at, n, t.chance(1, 3));
+            }
+        }
         Box::pin(SimStream {
             world: self.world.clone(),
             seed: self.meta.seed,
@@ -215,6 +240,9 @@ impl http_serve::Entity for SimEntity {
             extra_emitted: false,
             extra_more: 0,
             hint_policy,
+            run_at: run.0,
+            run_left: run.1,
+            run_then_pending: run.2,
         })
     }
 
@@ -258,6 +286,10 @@ pub struct SimStream {
     /// 0 = the default `Stream::size_hint` (0, None); 1 = a stream that, like `stream::iter` or
     /// `stream::empty`, reports an upper bound of 0 items once it knows it has nothing more.
     hint_policy: u32,
+    /// Planned run of `run_left` consecutive empty chunks when `pos == run_at`.
+    run_at: u64,
+    run_left: u32,
+    run_then_pending: bool,
 }
 
 impl SimStream {
@@ -267,6 +299,9 @@ impl SimStream {
             return true;
         }
         if self.empties_to_emit > 0 {
+            return false;
+        }
+        if self.run_left > 0 && self.pos == self.run_at {
             return false;
         }
         match self.fault {
@@ -351,6 +386,22 @@ impl Stream for SimStream {
                     // next poll ends the stream
                 }
                 return Poll::Ready(Some(Ok(SimData::ent(this.seed, this.start + this.pos, 0))));
+            }
+            // The planned run of empty chunks, before whatever else is due at this position.
+            if this.pos == this.run_at && this.empties_to_emit == 0 && !this.extra_emitted {
+                if this.run_left > 0 {
+                    this.run_left -= 1;
+                    st.empty_chunks += 1;
+                    st.empty_run_chunks += 1;
+                    return Poll::Ready(Some(Ok(SimData::ent(this.seed, this.start.wrapping_add(this.pos), 0))));
+                }
+                if this.run_then_pending {
+                    this.run_then_pending = false;
+                    this.had_pending = true;
+                    st.pendings += 1;
+                    cx.waker().wake_by_ref();
+                    return Poll::Pending;
+                }
             }
             // Fault due here?
             if let Some((kind, at)) = this.fault {
